@@ -260,12 +260,13 @@ pub fn generate(rng: &mut Rng, holder: usize, palette: &Palette) -> Content {
         2,  // 17 coverage: match with a missing arm (pure)
         4,  // 18 several independent diagnostics / observations in one file (order matters)
         4,  // 19 three imports
+        4,  // 20 a literal splice (text block + @[literal])
     ];
     if palette.allow_exec && !is_signature_slot {
-        weights.push(8); // 20 executable with literal code
-        weights.push(8); // 21 executable with imported code
-        weights.push(3); // 22 executable with a missing match arm
-        weights.push(5); // 23 executable whose function parameter is annotated by an import
+        weights.push(8); // 21 executable with literal code
+        weights.push(8); // 22 executable with imported code
+        weights.push(3); // 23 executable with a missing match arm
+        weights.push(5); // 24 executable whose function parameter is annotated by an import
     }
     match rng.weighted(&weights) {
         | 0 => Content::plain(&format!("int{literal}"), &literal.to_string(), Class::Closed),
@@ -360,9 +361,14 @@ pub fn generate(rng: &mut Rng, holder: usize, palette: &Palette) -> Content {
             imports: vec![import_of(rng, holder, palette), import_of(rng, holder, palette), import_of(rng, holder, palette)],
             class: Class::Closed,
         },
-        | 20 => executable(&format!("exec{literal}"), &literal.to_string(), vec![], false),
-        | 21 => executable("exec-import", "@[import({0})] _", vec![import_of(rng, holder, palette)], false),
-        | 22 => executable(&format!("exec-missing-arm{literal}"), &literal.to_string(), vec![], true),
+        | 20 => Content::plain(
+            &format!("literal-splice{literal}"),
+            &format!("--| Line one {literal}\n--| Line two\n@[literal] _"),
+            Class::Closed,
+        ),
+        | 21 => executable(&format!("exec{literal}"), &literal.to_string(), vec![], false),
+        | 22 => executable("exec-import", "@[import({0})] _", vec![import_of(rng, holder, palette)], false),
+        | 23 => executable(&format!("exec-missing-arm{literal}"), &literal.to_string(), vec![], true),
         | _ => Content {
             name: "exec-ann-import".into(),
             template: format!(
